@@ -113,6 +113,14 @@ func rulesC18(c *Ctx, r *Report) {
 	rulesScanAliasPkg(c, r, "formats/fastq")
 	rulesNewickNames(c, r)
 	_ = lits
+	// "does not panic": the bounds and panic rules of C11 over everything the codec iterators reach — a stop is
+	// no help if the item before it cannot be produced (an index out of range on an odd line, a make with a
+	// capacity taken from the input)
+	{
+		funcs, reach := decoderFuncs(c)
+		rulesGrdFuncs(c, r, funcs, 120, "bounds goals proven in decoder-reachable functions (shared with C11)")
+		rulesPanics(c, r, funcs, reach)
+	}
 }
 
 // rulesReentrantAll (REENTRANT): no iterator literal of the module assigns to a variable captured from the
